@@ -62,6 +62,10 @@ Proof.
 Qed.
 
 (* the phases the sort theorem speaks about *)
+(* (self - approx).cycle, the secondary sort key before repair D26 (kept as a statement about Phase - number) *)
+Definition remainder (p : ph) : PrimFloat.float :=
+  match op_addsub true (OPh p) (ONum (NReal (cycle p))) with RPh r => cycle r | _ => nan end.
+
 Definition ok_int (q : ph) : Prop :=
   p_imag q = false /\ fin (p_int q) /\ fin (p_frac q) /\ (exists k : Z, R_of (p_int q) = IZR k /\ (Z.abs k <= 2 ^ 51 - 3)%Z) /\
   Rabs (R_of (p_frac q)) <= / 2 + bpow radix2 (-50).
@@ -146,27 +150,32 @@ Proof.
   pose proof (bpow_gt_0 radix2 (-54)). lra.
 Qed.
 
-(* ---------- the key order is the exact order up to 2^-50 ---------- *)
-Definition key_of (q : ph) (i : nat) : key := (cycle q, remainder q, i).
-Lemma key_good q i : ok_int q -> good_key (key_of q i).
-Proof. intros H. split; cbn [key_of fst snd]; [apply (cycle_R q (ok_int_ok q H))|apply (remainder_sound q H)]. Qed.
+(* ---------- the key order IS the exact order (normalised phases) ---------- *)
+Definition key_of (q : ph) (i : nat) : key := (p_int q, p_frac q, i).
+(* a normalised phase: finite doubles, an integer count, a fraction in [-1/2, 1/2] - what every operation returns (C07) *)
+Definition ok_norm (q : ph) : Prop :=
+  fin (p_int q) /\ fin (p_frac q) /\ (exists k : Z, R_of (p_int q) = IZR k) /\ Rabs (R_of (p_frac q)) <= / 2.
+Lemma key_good q i : ok_norm q -> good_key (key_of q i).
+Proof. intros (Fi & Ff & _). split; assumption. Qed.
 
-Theorem key_le_V (a b : ph) (i j : nat) : ok_int a -> ok_int b -> key_le (key_of a i) (key_of b j) = true ->
-  V a <= V b + bpow radix2 (-50).
+Theorem key_le_V (a b : ph) (i j : nat) : ok_norm a -> ok_norm b -> key_le (key_of a i) (key_of b j) = true -> V a <= V b.
 Proof.
-  intros Ha Hb H. pose proof (bpow_gt_0 radix2 (-50)) as P.
-  rewrite (key_le_R _ _ (key_good a i Ha) (key_good b j Hb)) in H. cbn [key_of fst snd] in H.
-  destruct (cycle_R a (ok_int_ok a Ha)) as (Ea & Fa & _). destruct (cycle_R b (ok_int_ok b Hb)) as (Eb & Fb & _).
-  destruct (Rlt_bool_spec (R_of (cycle a)) (R_of (cycle b))) as [L|L]; cbn [orb] in H.
-  - assert (V a < V b); [|lra].
-    apply cycle_lt_exact; [apply ok_int_ok; exact Ha|apply ok_int_ok; exact Hb|]. rewrite (ltb_R _ _ Fa Fb). apply Rlt_bool_true. exact L.
+  intros Ha Hb H. rewrite (key_le_R _ _ (key_good a i Ha) (key_good b j Hb)) in H. cbn [key_of fst snd] in H.
+  destruct Ha as (_ & _ & (ka & Eka) & Bfa). destruct Hb as (_ & _ & (kb & Ekb) & Bfb).
+  apply Rabs_le_inv in Bfa. apply Rabs_le_inv in Bfb. unfold V.
+  destruct (Rlt_bool_spec (R_of (p_int a)) (R_of (p_int b))) as [L|L]; cbn [orb] in H.
+  - (* a smaller count: at least one whole cycle apart, the fractions span at most one *)
+    rewrite Eka, Ekb in L. apply lt_IZR in L. assert (IZR ka + 1 <= IZR kb) by (rewrite <- plus_IZR; apply IZR_le; lia).
+    rewrite Eka, Ekb. lra.
   - apply andb_true_iff in H. destruct H as [E U].
-    destruct (Req_bool_spec (R_of (cycle a)) (R_of (cycle b))) as [Ec|Ec]; [|discriminate].
-    destruct (Rle_bool_spec (R_of (remainder a)) (R_of (remainder b))) as [Lr|Lr]; [|discriminate].
-    destruct (remainder_sound a Ha) as [_ Ra]. destruct (remainder_sound b Hb) as [_ Rb].
-    apply Rabs_le_inv in Ra. apply Rabs_le_inv in Rb.
-    assert (E50 : bpow radix2 (-50) = 2 * bpow radix2 (-51)) by (change (-50)%Z with (-51 + 1)%Z; rewrite bpow_S; ring).
-    lra.
+    destruct (Req_bool_spec (R_of (p_int a)) (R_of (p_int b))) as [Ec|Ec]; [|discriminate].
+    destruct (Rle_bool_spec (R_of (p_frac a)) (R_of (p_frac b))) as [Lr|Lr]; [|discriminate]. lra.
+Qed.
+(* ... and strictly: the key order never puts a strictly larger value first *)
+Theorem key_lt_V (a b : ph) (i j : nat) : ok_norm a -> ok_norm b -> V a < V b -> key_le (key_of b j) (key_of a i) = false.
+Proof.
+  intros Ha Hb Hlt. destruct (key_le (key_of b j) (key_of a i)) eqn:E; [|reflexivity].
+  pose proof (key_le_V b a j i Hb Ha E). lra.
 Qed.
 
 Lemma StronglySorted_map_in {A B} (R : A -> A -> Prop) (S : B -> B -> Prop) (f : A -> B) (l : list A) :
@@ -191,10 +200,9 @@ Proof.
   destruct (G 0%nat l i q Hin) as [R1 R2]. rewrite Nat.sub_0_r in R2. split; [lia|]. unfold key_of. rewrite R2. reflexivity.
 Qed.
 
-(* argsort puts the phases in exact order up to 2^-50 cycles: for every two positions i < j of the result,
-   V (l[out_i]) <= V (l[out_j]) + 2^-50 *)
-Theorem argsort_ordered l : Forall ok_int l ->
-  StronglySorted (fun i j => V (nth i l dflt) <= V (nth j l dflt) + bpow radix2 (-50)) (argsort l).
+(* argsort puts the phases in EXACT order: for every two positions i < j of the result, V (l[out_i]) <= V (l[out_j]) - however close *)
+Theorem argsort_ordered l : Forall ok_norm l ->
+  StronglySorted (fun i j => V (nth i l dflt) <= V (nth j l dflt)) (argsort l).
 Proof.
   intros Hok. rewrite Forall_forall in Hok.
   assert (G : Forall good_key (keyed l)).
@@ -207,29 +215,9 @@ Proof.
   apply (key_le_V _ _ _ _ (Hok _ (nth_In _ _ Lx)) (Hok _ (nth_In _ _ Ly)) Hle).
 Qed.
 (* ... and sort returns the phases themselves in that order *)
-Theorem psort_ordered l : Forall ok_int l ->
-  StronglySorted (fun a b => V a <= V b + bpow radix2 (-50)) (psort l).
+Theorem psort_ordered l : Forall ok_norm l -> StronglySorted (fun a b => V a <= V b) (psort l).
 Proof.
-  intros Hok. unfold psort. apply (StronglySorted_map_in (fun i j => V (nth i l dflt) <= V (nth j l dflt) + bpow radix2 (-50))).
+  intros Hok. unfold psort. apply (StronglySorted_map_in (fun i j => V (nth i l dflt) <= V (nth j l dflt))).
   - intros x y _ _ H. exact H.
   - apply argsort_ordered. exact Hok.
-Qed.
-
-(* non-vacuity of the model side: three phases at count 2^50 whose rounded cycles coincide are sorted by the remainder *)
-Example argsort_example :
-  let a := {| p_int := 1125899906842624; p_frac := 0.25; p_imag := false |} in
-  let b := {| p_int := 1125899906842624; p_frac := 0x1.fffffffff8p-3; p_imag := false |} in
-  let c := {| p_int := 1125899906842623; p_frac := 0.5; p_imag := false |} in
-  argsort [a; b; c; a] = [2; 1; 0; 3]%nat.
-Proof. vm_compute. reflexivity. Qed.
-
-(* non-vacuity of the hypotheses: a concrete phase satisfies ok_int (hence ok_ph), so lists built from it satisfy the sort theorems *)
-Example ok_int_example : ok_int {| p_int := 3; p_frac := 0.25; p_imag := false |}.
-Proof.
-  unfold ok_int. cbn [p_int p_frac p_imag].
-  assert (E3 : R_of 3%float = 3) by (unfold R_of, Prim2B; cbn; unfold B2R, SF2B; cbn; unfold F2R; cbn; lra).
-  assert (E4 : R_of 0.25%float = / 4) by (unfold R_of, Prim2B; cbn; unfold B2R, SF2B; cbn; unfold F2R; cbn; lra).
-  split; [reflexivity|]. split; [reflexivity|]. split; [reflexivity|]. split.
-  - exists 3%Z. split; [exact E3|]. cbn. lia.
-  - rewrite E4. rewrite Rabs_pos_eq by lra. pose proof (bpow_gt_0 radix2 (-50)). lra.
 Qed.
